@@ -243,8 +243,92 @@ class Operators(Base):
                 P.prove(set(int(x) for x in r) <= (pa | pb), "crossover:children-drawn-from-the-parents")
 
 
+class GAWrapper(Harness):
+    """the pymoo-backed GA classes: whatever search result pymoo hands back (stubbed: an arbitrary enumerated population whose values are
+    the problem's own evaluations, members listed in any order, permuted duplicates included), the Solution they assemble reports,
+    for every solution, a decision vector from the candidate set with exactly the objective / constraint values of that very vector
+    (checked with an objective that depends on the position of each member in the vector, e.g. a mating design read as pairs)"""
+    name = "ga-solution-assembly"
+    needs_real_run = False       # the stubbed search result has no counterpart in a real pymoo run
+
+    def modules(self):
+        return MODS + [ALGO + "SubsetGeneticAlgorithm", ALGO + "NSGA2SubsetGeneticAlgorithm", ALGO + "NSGA3SubsetGeneticAlgorithm"]
+
+    def inputs(self, mk):
+        n = self.params["n"]
+        inp = dict(ebv=mk.real("e", (n, 1)))
+        if not mk.concrete:
+            import z3
+            sym.ctx().prefer = list(sym.ctx().prefer) + [z3.Distinct(*[c.e for c in cells(inp["ebv"])])]
+        return inp
+
+    @staticmethod
+    def _objs(inp, x, nobj):
+        """position-dependent objectives: sum_k (k+1)^j * score[x_k]"""
+        out = []
+        for j in range(1, nobj + 1):
+            tot = 0.0
+            for k, m in enumerate(x):
+                tot = tot + float((k + 1) ** j) * cell(inp["ebv"], int(m), 0)
+            out.append(tot)
+        return out
+
+    def call(self, inp, mk):
+        import importlib
+        import pybrops.breed.prot.sel.prob.trans as T
+        from pybrops.breed.prot.sel.prob.EstimatedBreedingValueSelectionProblem import EstimatedBreedingValueSubsetSelectionProblem as C
+        n, k, nobj, algo = self.params["n"], self.params["k"], self.params["nobj"], self.params["algo"]
+        objs = self._objs
+
+        def positional(decnvec, latentvec, **kwargs):
+            v = objs(inp, [int(m) for m in decnvec], nobj)
+            return symnp._sa(v) if any(isinstance(c, SV) for c in v) else numpy.array(v, dtype=float)
+        prob = C(ebv=inp["ebv"], ndecn=k, decn_space=numpy.arange(n), decn_space_lower=numpy.repeat(0, k), decn_space_upper=numpy.repeat(n - 1, k),
+                 nobj=nobj, obj_wt=numpy.repeat(1.0, nobj), obj_trans=positional)
+        X = numpy.array(self.params["X"])
+
+        class Res:
+            pass
+
+        def stub_minimize(problem, algorithm, termination=None, **kw):
+            r = Res()
+            rows = [problem.evalfn(x) for x in X]
+            if problem.n_obj == 1:
+                r.X, (r.F, r.G, r.H) = X[0], rows[0]
+            else:
+                r.X = X
+                r.F = numpy.stack([q[0] for q in rows])
+                r.G = numpy.stack([q[1] for q in rows])
+                r.H = numpy.stack([q[2] for q in rows])
+            return r
+        mod = importlib.import_module(ALGO + algo)
+        saved = mod.minimize
+        mod.minimize = stub_minimize
+        try:
+            s = getattr(mod, algo)(ngen=2, pop_size=4, rng=stubs.SymRNG("garng")).minimize(prob)
+        finally:
+            mod.minimize = saved
+        return dict(decn=s.soln_decn, obj=s.soln_obj, nsoln=s.nsoln, space=prob.decn_space)
+
+    def check(self, P, inp, out):
+        n, k, nobj = self.params["n"], self.params["k"], self.params["nobj"]
+        D, F = out["decn"], out["obj"]
+        P.prove(int(out["nsoln"]) == D.shape[0] == F.shape[0] and D.shape[1] == k, "solution-arrays-consistent", detail="%s %s %s" % (out["nsoln"], D.shape, F.shape))
+        given = [tuple(int(v) for v in r) for r in (self.params["X"] if nobj > 1 else self.params["X"][:1])]
+        got = [tuple(int(v) for v in cells(D[i])) for i in range(D.shape[0])]
+        P.prove(all(all(0 <= m < n for m in r) and len(set(r)) == k for r in got), "reported-subsets-are-feasible", detail="%s" % got)
+        P.prove(set(frozenset(r) for r in got) == set(frozenset(r) for r in given), "every-solution-of-the-search-is-reported (as a set of members)", detail="%s vs %s" % (got, given))
+        for i, r in enumerate(got):
+            ref = self._objs(inp, r, nobj)
+            for j in range(nobj):
+                P.prove(P.eq(cell(F, i, j), ref[j]), "reported-objective=evaluation-of-the-reported-decision-vector", detail="solution %d %s objective %d" % (i, r, j))
+
+
 def obligations(tier):
     obs = []
+    for algo, nobj, X in (("SubsetGeneticAlgorithm", 1, [[2, 0]]), ("NSGA2SubsetGeneticAlgorithm", 2, [[2, 0], [1, 3]]), ("NSGA2SubsetGeneticAlgorithm", 2, [[2, 0], [0, 2], [3, 1]]),
+                          ("NSGA3SubsetGeneticAlgorithm", 2, [[3, 0], [1, 2]])):
+        obs.append(GAWrapper(algo=algo, n=4, k=2, nobj=nobj, X=X))
     for n, k in ([(3, 1), (3, 2), (4, 2)] if tier == "quick" else [(3, 1), (3, 2), (4, 2), (4, 3), (5, 2)]):
         h = Sorting(n=n, k=k)
         h.weight = 10 * n ** 2
